@@ -5,3 +5,4 @@ import MudExec.OpsC
 import MudExec.OpsD
 import MudExec.OpsE
 import MudExec.OpsF
+import MudExec.OpsG
